@@ -5,112 +5,10 @@ From Coq Require Import ZArith List Bool Arith Lia.
 From SP Require Import Design.Flat Design.Layout Comb.CombModel Comb.CombSpec Random.Enum Random.Frag
   Random.RunLemmas Random.FragPerm Random.Frag0Enum Random.Frag0Decode.
 From SP Require Comb.PermProofs.
+From SP Require Export Random.ListFacts.
 Import ListNotations.
 Open Scope nat_scope.
 Set Default Proof Using "All".
-
-Lemma flat_map_length_const {A B} (h : A -> list B) m l :
-  (forall x, In x l -> length (h x) = m) -> length (flat_map h l) = length l * m.
-Proof.
-  induction l as [|x t IH]; intros H; [reflexivity|].
-  cbn [flat_map length]. rewrite app_length, (H x (or_introl eq_refl)), IH; [lia|].
-  intros y Hy. apply H. right. exact Hy.
-Qed.
-
-(** * [ranges_product] and [words] *)
-Lemma zrange_In (s x : Z) : In x (map Z.of_nat (seq 0 (Z.to_nat s))) <-> (0 <= x < s)%Z.
-Proof.
-  rewrite in_map_iff. split.
-  - intros [i [E Hi]]. apply in_seq in Hi. lia.
-  - intros H. exists (Z.to_nat x). split; [lia | apply in_seq; lia].
-Qed.
-
-Lemma zrange_NoDup (s : Z) : NoDup (map Z.of_nat (seq 0 (Z.to_nat s))).
-Proof.
-  apply FinFun.Injective_map_NoDup; [intros a b H; lia | apply seq_NoDup].
-Qed.
-
-Lemma ranges_product_In sizes xs :
-  In xs (ranges_product sizes) <-> Forall2 (fun s x => (0 <= x < s)%Z) sizes xs.
-Proof.
-  unfold ranges_product. rewrite product_In. split; intros H.
-  - remember (map (fun s => map Z.of_nat (seq 0 (Z.to_nat s))) sizes) as ls eqn:E. revert sizes E.
-    induction H as [|l x ls' xs' Hx Hrest IH]; intros sizes E; destruct sizes as [|s t]; try discriminate; [constructor|].
-    cbn [map] in E. inversion E; subst. constructor; [apply zrange_In; exact Hx | apply IH; reflexivity].
-  - induction H as [|s x t xs' Hx Hrest IH]; cbn [map]; constructor; [apply zrange_In; exact Hx | exact IH].
-Qed.
-
-Lemma ranges_product_NoDup sizes : NoDup (ranges_product sizes).
-Proof.
-  unfold ranges_product. apply product_NoDup. intros l Hl. apply in_map_iff in Hl.
-  destruct Hl as [s [E _]]. subst l. apply zrange_NoDup.
-Qed.
-
-Lemma product_length {A} (lss : list (list A)) :
-  length (product lss) = fold_right (fun l acc => length l * acc) 1 lss.
-Proof.
-  induction lss as [|l t IH]; [reflexivity|]. cbn [product fold_right]. rewrite <- IH.
-  induction l as [|x l' IHl]; [reflexivity|]. cbn [flat_map length]. rewrite app_length, map_length, IHl. lia.
-Qed.
-
-Lemma ranges_product_length sizes : Forall (fun s => (0 <= s)%Z) sizes ->
-  Z.of_nat (length (ranges_product sizes)) = prodZl sizes.
-Proof.
-  intros H. unfold ranges_product. rewrite product_length. unfold prodZl.
-  assert (G : forall acc, fold_left Z.mul sizes acc =
-              (acc * Z.of_nat (fold_right (fun l a => (length l * a)%nat) 1%nat (map (fun s => map Z.of_nat (seq 0 (Z.to_nat s))) sizes)))%Z).
-  { induction H as [|s t Hs Hrest IH]; intros acc; cbn [fold_left map fold_right]; [lia|].
-    rewrite IH. rewrite map_length, seq_length. rewrite Nat2Z.inj_mul. rewrite Z2Nat.id by exact Hs. ring. }
-  rewrite G. lia.
-Qed.
-
-Lemma ranges_product_ones {A} (l : list A) : ranges_product (map (fun _ => 1%Z) l) = [zeros (length l)].
-Proof.
-  unfold ranges_product, zeros. induction l as [|x t IH]; [reflexivity|].
-  cbn [map product length repeat]. rewrite IH. reflexivity.
-Qed.
-
-Lemma words_In {A} (xs : list A) m w :
-  In w (words m xs) <-> length w = m /\ Forall (fun x => In x xs) w.
-Proof.
-  revert w. induction m as [|m IH]; intros w; cbn [words].
-  - split.
-    + intros [H | []]. subst. split; [reflexivity | constructor].
-    + intros [H _]. destruct w; [left; reflexivity | discriminate].
-  - rewrite in_flat_map. split.
-    + intros [x [Hx Hin]]. apply in_map_iff in Hin. destruct Hin as [w' [E Hw']]. subst w.
-      apply IH in Hw'. destruct Hw' as [Hl Hf]. split; [cbn; lia | constructor; assumption].
-    + intros [Hl Hf]. destruct w as [|x w']; [discriminate|]. inversion Hf; subst.
-      exists x. split; [assumption|]. apply in_map_iff. exists w'. split; [reflexivity|].
-      apply IH. split; [cbn in Hl; lia | assumption].
-Qed.
-
-Lemma cons_product_NoDup {A} (xs : list A) (W : list (list A)) :
-  NoDup xs -> NoDup W -> NoDup (flat_map (fun x => map (cons x) W) xs).
-Proof.
-  intros Hnd HW. induction Hnd as [|x l Hx Hnd IHl]; cbn [flat_map]; [constructor|].
-  apply NoDup_app_intro; [apply NoDup_map_cons; exact HW | exact IHl|].
-  intros w Hw Hin. apply in_map_iff in Hw. destruct Hw as [w' [E _]]. subst w.
-  apply in_flat_map in Hin. destruct Hin as [y [Hy Hin]]. apply in_map_iff in Hin.
-  destruct Hin as [w'' [E _]]. inversion E; subst. contradiction.
-Qed.
-
-Lemma words_NoDup {A} (xs : list A) m : NoDup xs -> NoDup (words m xs).
-Proof.
-  intros Hnd. induction m as [|m IH]; cbn [words]; [constructor; [intros [] | constructor]|].
-  apply cons_product_NoDup; assumption.
-Qed.
-
-Lemma cons_product_length {A} (xs : list A) (W : list (list A)) :
-  length (flat_map (fun x => map (cons x) W) xs) = length xs * length W.
-Proof.
-  induction xs as [|x l IHl]; [reflexivity|]. cbn [flat_map length]. rewrite app_length, map_length, IHl. lia.
-Qed.
-
-Lemma words_length {A} (xs : list A) m : length (words m xs) = length xs ^ m.
-Proof.
-  induction m as [|m IH]; [reflexivity|]. cbn [words Nat.pow]. rewrite cons_product_length, IH. reflexivity.
-Qed.
 
 (** * The components of one round *)
 Section F0K.
